@@ -85,4 +85,22 @@ PROPS = {
                     "cross-build (-mno-avx2 / -msse2 only) replays are not run; the three widths are instantiated inside one AVX2 build as the unit tests do"],
         "assumptions": [],
     },
+    "C15": {
+        "lean_modules": ["StimModel.Props.C15", "StimModel.Core.Count"],
+        "builds": ["asan"],
+        "areas": [
+            {"area": "circq", "n": {"quick": 1200, "thorough": 30000}, "builds": ["asan"], "replayable": True},
+            {"area": "dem", "n": {"quick": 800, "thorough": 20000}, "builds": ["asan"], "replayable": True},
+            {"area": "alg", "n": {"quick": 400, "thorough": 20000}, "builds": ["asan"]},
+        ],
+        "rule": "nested circuits with measurements of every counting kind (pairs, products with combiners, MPAD), DETECTOR / OBSERVABLE_INCLUDE / TICK / SHIFT_COORDS / QUBIT_COORDS, sweep "
+                "and rec targets, repeat counts from {1,2,3,7,1000,2^32-1,2^32,2^62+1,2^63-1,2^64-1} (count queries, compute_stats) or small (coordinate queries, checked against the unrolled "
+                "executor); nested detector error models with shifts of varying arity, 60-bit ids, repeat 0; histories of 6..30 mutating API calls (+, +=, *, *=, safe_insert of instruction / "
+                "circuit / repeat block, append_repeat_block, py_get_slice, copy/move/self-assignment, append_from_text, clear, and the DEM counterparts) on a pool of heap-allocated objects "
+                "whose sources are destroyed before the result is read, under ASan+UBSan; distinct = distinct case descriptions",
+        "trusted_base": ["ASan/UBSan as the observer of aliasing of freed or foreign storage"],
+        "partial": ["final_coord_shift / detector / qubit coordinate closed forms are compared with the unrolled executor by correspondence (exact rationals), not proved equal in Lean",
+                    "algebra_refines_lists is checked per operation through the verified-by-computation normal form `sameProgram`; the statement that equal normal forms unroll to equal streams is not yet proved"],
+        "assumptions": ["coordinates are dyadic so binary64 arithmetic is exact; with astronomically large repeat counts only the integer counts are compared"],
+    },
 }
